@@ -208,6 +208,16 @@ class DocGen:
         if k == "scalar":
             # custom scalars built from SDL accept every literal without variables (a2b8a10): also null, lists, objects
             r = rng.random()
+            if not const and self.scope_stack and r < 0.12:
+                # a VARIABLE inside a structured literal at a custom scalar (hunt3 C06/1): it is a usage (5.8.3 / 5.8.4),
+                # the position has no type (anything is allowed there), and the literal is accepted
+                self.nvar += 1
+                n = "v%d" % self.nvar
+                self.vars[n] = {"type": rng.choice([("named", "Int"), ("named", b), ("list", ("named", "String"))]), "default": None}
+                self.scope_stack[-1]["vars"].add(n)
+                inner = ("var", n)
+                return rng.choice([("obj", [("a", inner)]), ("list", [inner]), ("obj", [("a", ("list", [("int", "1"), inner]))]),
+                                   ("list", [("obj", [("b", inner)])])])
             if r < 0.25:
                 return ("obj", [("k%d" % i, rng.choice([("int", "1"), ("str", "s"), ("null",), ("list", [("int", "2")]),
                                                         ("obj", [("n", ("bool", True))])])) for i in range(rng.randint(0, 3))])
@@ -610,6 +620,35 @@ def typename_alias_construct(rng, sv, doc, conflict):
     return None
 
 
+
+def inline_directive_construct(rng, sv, doc):
+    """a directive ON AN INLINE FRAGMENT that stands directly in the root selection set of an operation or of a fragment
+    definition - typed and bare: `query { ... @skip(if: true) { __typename } }`. The directive's location is
+    INLINE_FRAGMENT whatever encloses the fragment (seeded class C06-7: an ancestor stack that does not push inline
+    fragments locates it at QUERY / MUTATION / FRAGMENT_DEFINITION, where `@skip` / `@include` are not allowed).
+    Also uses a schema directive whose only executable location is INLINE_FRAGMENT when there is one."""
+    hosts = [x for x in doc["defs"] if (x["k"] == "op" and x["op"] != "subscription") or x["k"] == "frag"]
+    if not hosts:
+        return None
+    x = rng.choice(hosts)
+    root = sv.root(x["op"]) if x["k"] == "op" else x["on"]
+    if not root or sv.kind(root) not in ("object", "interface", "union"):
+        return None
+    only = [d for d in sv.directives.values() if "INLINE_FRAGMENT" in d["locations"]
+            and not ({"QUERY", "MUTATION", "FIELD", "FRAGMENT_DEFINITION"} & set(d["locations"]))
+            and not any(a["type"][0] == "nonNull" and a.get("default") is None for a in d["args"])]
+    if only and rng.random() < 0.5:
+        dr = {"name": rng.choice(only)["name"], "args": []}
+    else:
+        dr = {"name": rng.choice(["skip", "include"]), "args": [{"name": "if", "value": ("bool", rng.random() < 0.5)}]}
+    typed = rng.random() < 0.5
+    key = "zi" + "".join(rng.choice("abcdefghij") for _ in range(3))
+    x["sels"].insert(rng.randint(0, len(x["sels"])),
+                     {"k": "inline", "on": root if typed else None, "dirs": [dr],
+                      "sels": [{"k": "field", "alias": key, "name": "__typename", "args": [], "dirs": [], "sels": None}]})
+    return "directive-on-%s-inline-fragment-at-%s-root:%s" % ("typed" if typed else "bare", x["op"] if x["k"] == "op" else "fragment-definition", dr["name"])
+
+
 def gen_document(rng, desc, size=2):
     for _ in range(20):
         g = DocGen(rng, desc, size)
@@ -624,6 +663,10 @@ def gen_document(rng, desc, size=2):
         feat = typename_alias_construct(rng, g.sv, doc, conflict=False)
         if feat:
             doc.setdefault("_features", []).append(feat)
+    if rng.random() < 0.7:
+        feat = inline_directive_construct(rng, g.sv, doc)
+        if feat:
+            doc.setdefault("_features", []).append(feat.split(":")[0])
     return doc
 
 
@@ -736,7 +779,8 @@ def def_tokens(d):
     return out + sels_tokens(d["sels"])
 
 
-SEPS = [" ", " ", "\n", ",", " , ", "\t", "  ", ",\n", " # c\n", "\n#x y {\n", "﻿", "\r\n"]
+# comments are ended by LF, CRLF and by a LONE CR (a LineTerminator of the grammar; seeded class C06-9)
+SEPS = [" ", " ", "\n", ",", " , ", "\t", "  ", ",\n", " # c\n", "\n#x y {\n", "﻿", "\r\n", "\r", " # c } {\r", "#\r", " #x\r\n"]
 
 
 def to_text(doc, respell_rng=None):
